@@ -661,7 +661,7 @@ func positions(o outcome, thorough bool) []int64 {
 	set := map[int64]bool{}
 	lim := int64(300)
 	if thorough {
-		lim = 2000
+		lim = 1 << 40 // every byte position of the peer's stream
 	}
 	for k := int64(0); k <= lim && k <= o.inTotal; k++ {
 		set[k] = true
